@@ -654,6 +654,10 @@ func (s *sc) rtpRead(m *rstream) {
 	if fail {
 		// the poison packet left in the buffer by a failing read: far ahead, never reused
 		seq, tw = m.seq+poisonAhead+uint16(len(m.poisonSeq)), s.twccNext+poisonAhead+uint16(len(s.poisonTW))
+		if seq == 0 {
+			// 0 is also what a receiver report says before any packet arrived: not usable as a marker
+			seq = 1 // still about 20 000 ahead of anything read successfully in this history
+		}
 		m.poisonSeq[seq] = true
 		s.poisonTW[tw] = true
 	}
